@@ -272,7 +272,13 @@ func (m *machine) drawCommand(c *conn) (name string, p command.Payload, effectiv
 		return name, p, true
 	}
 
-	if m.chance("retarget", 6, 7) {
+	// Raw arguments of C10's generator (any bytes, any numbers) are kept only where the state model refuses the
+	// command whatever its arguments are; a command that will be executed always gets effective arguments: what
+	// gluon does with arbitrary arguments of an admitted command is the subject of C11/C13/C14/C16, not of C18.
+	cls := c.state.class()
+	refusedAnyway := cls == clNotAuth || cls == clGone || (categories[name] == catSelected && cls == clNoSel && !c.uncertain)
+
+	if !refusedAnyway || m.chance("retarget", 4, 5) {
 		m.retarget(c, p)
 
 		// own mailboxes are the ones worth selecting when the connection is authenticated
@@ -718,28 +724,43 @@ func (m *machine) jailBurst() {
 		w.observe(m.n("burst-observe", 0, len(w.creds)-1))
 	}
 
-	for guard := 0; w.fails < 3 && guard < 4; guard++ {
-		kind := pick(m, "burst-kind", []string{"wrong-pass", "other-users-pass", "unknown-user-valid-pass", "empty-pass", "case-pass", "pass-prefix"})
-		cr, kind := m.drawCred(kind)
+	for m.armed < m.jailBudget {
+		for guard := 0; w.fails < 3 && guard < 4; guard++ {
+			kind := pick(m, "burst-kind", []string{"wrong-pass", "other-users-pass", "unknown-user-valid-pass", "empty-pass", "case-pass", "pass-prefix"})
+			cr, kind := m.drawCred(kind)
 
-		if m.authenticates(cr) >= 0 {
-			cr.Pass += "~"
+			if m.authenticates(cr) >= 0 {
+				cr.Pass += "~"
+			}
+
+			m.login(unauth(), cr, kind)
 		}
 
-		m.login(unauth(), cr, kind)
-	}
+		// with budget left the attempt after the jail preferably fails and the next episode follows at once: three
+		// more failures in a row (the held-back one included) without any success in between
+		if m.armed < m.jailBudget && m.chance("burst-chain", 2, 3) {
+			w.label("jail:chained")
 
-	switch m.n("burst-next", 0, 3) {
-	case 0:
-		cr, kind := m.drawCred("right")
-		m.login(unauth(), cr, kind)
-	case 1:
-		cr, kind := m.drawCred("wrong-pass")
-		m.login(unauth(), cr, kind)
-	case 2:
-		w.observe(m.n("burst-observe", 0, len(w.creds)-1))
-	default:
-		// left to whatever comes next (at the latest the final fresh views)
+			cr, kind := m.drawCred("wrong-pass")
+			m.login(unauth(), cr, kind)
+
+			continue
+		}
+
+		switch m.n("burst-next", 0, 3) {
+		case 0:
+			cr, kind := m.drawCred("right")
+			m.login(unauth(), cr, kind)
+		case 1:
+			cr, kind := m.drawCred("wrong-pass")
+			m.login(unauth(), cr, kind)
+		case 2:
+			w.observe(m.n("burst-observe", 0, len(w.creds)-1))
+		default:
+			// left to whatever comes next (at the latest the final fresh views)
+		}
+
+		break
 	}
 }
 
